@@ -114,6 +114,7 @@ def make_sampler(ex, st, explored=None):
     f['n_like_iter'] = mint('n_like_iter')
     sstate(st)
     clock(st)
+    statfresh(st)
     return st.alloc(ObjRec('Sampler', f), 'self')
 
 
@@ -226,6 +227,7 @@ def install_bound_api(reg, cx):
         # sampling advances the bound's proposal state and the shared rng
         ss = sstate(st)
         st.ghost['sstate'] = z3.Store(ss, b.t, z3.Int(uid('ss')))
+        invalidate(st, b.t)      # log_v of this bound may change
         ex.reg.havoc_ghost(ex, st, 'rng')
         if rp is False:
             return None
@@ -433,6 +435,10 @@ def InvAll(V):    # noqa: F811
             inv_N(V) + inv_A(V))
 
 
+def InvAllS(V):
+    return InvAll(V) + inv_S(V)
+
+
 def inv_phase(V):
     nb = S(V, 'bounds').n
     expl = V.bool('self.explored')
@@ -471,3 +477,81 @@ def inv_A(V):
             z3.And(z3.Not(expl), z3.Not(btn)), A.forall_idx(
                 pt.n, lambda t: blt.at(t) == Bl(pt.at(t))))))
     return out
+
+
+# ---------------------------------------------------------------------------
+# C02: ghost "statistics up to date" bit per bound (DESIGN.md 7, C02)
+#
+# statfresh[b] is set by update_shell_info (whose body is proved to establish
+# S1 for that shell) and cleared by every write to an input of S1 of the shell
+# of bound b: its log_l array, its proposal counter, the bound's sampling state,
+# the view parameters; and by every write to the four statistic arrays outside
+# update_shell_info.
+
+def statfresh(st):
+    if 'statfresh' not in st.ghost:
+        st.ghost['statfresh'] = z3.Array(uid('statfresh'), Bound,
+                                         z3.BoolSort())
+    return st.ghost['statfresh']
+
+
+def havoc_statfresh(ex, st):
+    st.ghost['statfresh'] = z3.Array(uid('statfresh'), Bound, z3.BoolSort())
+
+
+def invalidate(st, b):
+    st.ghost['statfresh'] = z3.Store(statfresh(st), b, z3.BoolVal(False))
+
+
+def invalidate_all(st):
+    st.ghost['statfresh'] = z3.K(Bound, z3.BoolVal(False))
+
+
+STAT_INPUT_ARRAYS = ('log_l', 'shell_n_sample')
+STAT_OUTPUT_ARRAYS = ('shell_n', 'shell_log_v', 'shell_log_l', 'shell_n_eff')
+VIEW_FIELDS = ('_discard_exploration', 'explored', 'shell_end_exp',
+               'shell_n_sample_exp')
+
+
+def install_stat_tracking(reg):
+    reg.ghost_havoc['statfresh'] = havoc_statfresh
+
+    def store_hook(ex, st, base, ii):
+        self_ = st.env.get('self')
+        if not isinstance(self_, Ref):
+            return
+        rec = st.cell(self_)
+        if not isinstance(rec, ObjRec) or rec.cls != 'Sampler':
+            return
+        if st.ghost.get('in_update_shell_info'):
+            return
+        for f in STAT_INPUT_ARRAYS + STAT_OUTPUT_ARRAYS:
+            v = rec.fields.get(f)
+            if isinstance(v, Ref) and v.oid == base.oid:
+                b = ex.deref(st, rec.fields['bounds'])
+                invalidate(st, b.at(ii))
+    reg.store_hook = store_hook
+    prev = reg.setattr_hook
+
+    def setattr_hook(ex, st, o, attr, v, node):
+        if attr in VIEW_FIELDS and isinstance(o, Ref) and isinstance(
+                st.cell(o), ObjRec) and st.cell(o).cls == 'Sampler':
+            invalidate_all(st)
+        if prev is not None:
+            return prev(ex, st, o, attr, v, node)
+        return False
+    reg.setattr_hook = setattr_hook
+
+
+def never_sampled(V, i):
+    return z3.And(S(V, 'shell_n_sample').at(i) == 0,
+                  S(V, 'log_l').alen(i) == 0, S(V, 'shell_n').at(i) == 0,
+                  S(V, 'shell_n_eff').at(i) == 0,
+                  S(V, 'shell_log_l').at(i) == NAN)
+
+
+def inv_S(V):
+    b = S(V, 'bounds')
+    f = statfresh(V.st)
+    return [('S_statistics_up_to_date', A.forall_idx(
+        b.n, lambda i: z3.Or(z3.Select(f, b.at(i)), never_sampled(V, i))))]
